@@ -1,7 +1,7 @@
 """C17 -- with consume_input off, results parse sentence prefixes; GLR finds them all."""
 import multiprocessing as mp
 
-from lib import common, glrcases, gramgen, refparse
+from lib import common, glrcases, glrcorr, gramgen, refparse
 
 LEVEL = "proof"
 ASSUMPTIONS = [
@@ -357,15 +357,24 @@ def run(ctx):
             if o != 1 or not chain or not root_ok:
                 ctx.violation("Parser(consume_input=False) returned a tree that is not a derivation of a prefix "
                               "of the input", dict(rep, tree=res["tree"]), key="lr-invalid")
+    # ---- GLR driver model vs GLRParser.parse (consume_input off) --------------------------------
+    # the extracted Gallina model of the driver (Model/GLR.v, command 210) and the impl run on
+    # the same grammar/table/match matrix/input; accept/reject and the whole forest graph are
+    # compared (harness/lib/glrcorr.py)
+    gm = glrcorr.run(ctx, consume=False)
+    st["glr_model"] = gm
+    # ---- end of the GLR driver model block ---------------------------------------------------------
     return {
-        "evaluations": st["inputs"] + st["lr_parses"],
+        "glr_model_cases": gm["glr_model_cases"],
+        "glr_model_agree": gm["glr_model_agree"],
+        "evaluations": st["inputs"] + st["lr_parses"] + gm["glr_model_cases"],
         "distinct_nontrivial": len(distinct),
         "rule": "GLR cases of C01/C02 with consume_input=False (LALR, SLR, lexical disambiguation off and on) plus "
                 "grammars with overlapping terminals of different lengths; LR with consume_input=False on curated and "
                 "random grammars; non-trivial = input with sentence prefixes of different token counts; distinct by "
                 "(grammar, input)",
         "samples": samples,
-        "traces_validated_against_impl": st["forest_ok_checked"] + st["lr_parses"],
+        "traces_validated_against_impl": st["forest_ok_checked"] + st["lr_parses"] + gm["glr_model_agree"],
         "distribution": st,
         "crosscheck_vm_compute_cases": nx,
         "exhaustive": False,
